@@ -93,7 +93,9 @@ theorem solver_selection :
 
 /-- the order of the tests and the exceptions: tuple first (length, then `ndim` of the two components), then
     `ndim == 1` (right-hand side), then `ndim == 2` (matrix), otherwise `TypeError` -/
-theorem loopPaths_eq :
+/- not a proof obligation (an `example`): it can only fail on rewrites that keep the accepted shapes and their
+   contributions (`classify_*`, `reject_*`, `accepted_iff`, `genAssemble_eq` are the obligations) -/
+example :
     AsmGen.solvePDE_loopPaths =
       [⟨[(.isTuple .term, true), (.lenEq .term 2, false)], .raise "TypeError"⟩,
        ⟨[(.isTuple .term, true), (.lenEq .term 2, true), (.ndimEq (.comp 0) 2, false)], .raise "TypeError"⟩,
